@@ -154,57 +154,111 @@ func (c *Ctx) flagCases(v ssa.Value, depth int) ([]flagCase, bool) {
 // appendCondEdges finds, in fn, the edges on which `attrs & APPEND_WRITE != 0`
 // holds, where attrs is a value of type attributes.Attributes.
 func (c *Ctx) appendCondEdges(fn *ssa.Function) []ir.Edge {
-	appendBit, ok := c.constInt(M+"/efi/attributes", "EFI_VARIABLE_APPEND_WRITE")
-	if !ok {
-		return nil
-	}
 	var out []ir.Edge
 	for _, ce := range ir.CondEdges(fn) {
-		cmp, ok := ce.Cond.(*ssa.BinOp)
-		if !ok || (cmp.Op != token.NEQ && cmp.Op != token.EQL) {
+		if setWhenTrue, ok := c.appendBitTest(ce.Cond); ok {
+			if setWhenTrue == ce.Truth {
+				out = append(out, ce.Edge)
+			}
 			continue
 		}
-		and, ok := ir.StripConv(cmp.X).(*ssa.BinOp)
-		other := cmp.Y
-		if !ok {
-			and, ok = ir.StripConv(cmp.Y).(*ssa.BinOp)
-			other = cmp.X
-		}
-		if !ok || and.Op != token.AND {
+		// the test was made by the caller and handed down as a flag: every call
+		// site in the library passes the outcome of such a test, with one polarity
+		p, isP := ce.Cond.(*ssa.Parameter)
+		if !isP || !isBoolType(p.Type()) || fn.Object() == nil || fn.Object().Exported() {
 			continue
 		}
-		k, isK := evalConst(and.Y)
-		attrs := and.X
-		if !isK {
-			k, isK = evalConst(and.X)
-			attrs = and.Y
-		}
-		if !isK || k != appendBit || ir.NamedTypeID(ir.StripConv(attrs).Type()) != M+"/efi/attributes.Attributes" && ir.NamedTypeID(attrs.Type()) != M+"/efi/attributes.Attributes" {
+		node := c.P.CallGraph().Nodes[fn]
+		if node == nil {
 			continue
 		}
-		z, isZ := evalConst(other)
-		if !isZ {
-			continue
+		idx := -1
+		for k, q := range fn.Params {
+			if q == p {
+				idx = k
+			}
 		}
-		// cmp is (attrs&bit) OP z ; bit set on this edge?
-		var set bool
-		switch {
-		case z == 0 && cmp.Op == token.NEQ:
-			set = ce.Truth
-		case z == 0 && cmp.Op == token.EQL:
-			set = !ce.Truth
-		case z == appendBit && cmp.Op == token.EQL:
-			set = ce.Truth
-		case z == appendBit && cmp.Op == token.NEQ:
-			set = !ce.Truth
-		default:
-			continue
+		sites, agree, pol := 0, true, false
+		for _, in := range node.In {
+			if in.Site == nil || !c.P.InLib(in.Caller.Func) {
+				continue
+			}
+			if in.Caller.Func.Synthetic != "" {
+				// the wrapper of a promoted method: counts only if something calls it
+				if len(in.Caller.In) > 0 {
+					agree = false
+				}
+				continue
+			}
+			args := ir.CallArgs(in.Site)
+			if idx < 0 || idx >= len(args) {
+				agree = false
+				break
+			}
+			core, neg := ir.Peel(args[idx])
+			swt, ok := c.appendBitTest(core)
+			if !ok {
+				agree = false
+				break
+			}
+			swt = swt != neg
+			if sites > 0 && swt != pol {
+				agree = false
+			}
+			pol = swt
+			sites++
 		}
-		if set {
+		if sites > 0 && agree && pol == ce.Truth {
 			out = append(out, ce.Edge)
 		}
 	}
 	return out
+}
+
+// appendBitTest: v is a comparison of attrs&EFI_VARIABLE_APPEND_WRITE with 0 or
+// with the bit; setWhenTrue tells whether the bit is set when v is true.
+func (c *Ctx) appendBitTest(v ssa.Value) (setWhenTrue bool, ok bool) {
+	appendBit, okC := c.constInt(M+"/efi/attributes", "EFI_VARIABLE_APPEND_WRITE")
+	if !okC {
+		return false, false
+	}
+	cmp, isB := v.(*ssa.BinOp)
+	if !isB || (cmp.Op != token.NEQ && cmp.Op != token.EQL) {
+		return false, false
+	}
+	and, isAnd := ir.StripConv(cmp.X).(*ssa.BinOp)
+	other := cmp.Y
+	if !isAnd {
+		and, isAnd = ir.StripConv(cmp.Y).(*ssa.BinOp)
+		other = cmp.X
+	}
+	if !isAnd || and.Op != token.AND {
+		return false, false
+	}
+	k, isK := evalConst(and.Y)
+	attrs := and.X
+	if !isK {
+		k, isK = evalConst(and.X)
+		attrs = and.Y
+	}
+	if !isK || k != appendBit || ir.NamedTypeID(ir.StripConv(attrs).Type()) != M+"/efi/attributes.Attributes" && ir.NamedTypeID(attrs.Type()) != M+"/efi/attributes.Attributes" {
+		return false, false
+	}
+	z, isZ := evalConst(other)
+	if !isZ {
+		return false, false
+	}
+	switch {
+	case z == 0 && cmp.Op == token.NEQ:
+		return true, true
+	case z == 0 && cmp.Op == token.EQL:
+		return false, true
+	case z == appendBit && cmp.Op == token.EQL:
+		return true, true
+	case z == appendBit && cmp.Op == token.NEQ:
+		return false, true
+	}
+	return false, false
 }
 
 type writeTwin struct {
@@ -266,7 +320,7 @@ func errValClass(r *ssa.Return, v ssa.Value, depth int) string {
 	switch x := v.(type) {
 	case *ssa.UnOp:
 		if x.Op == token.MUL {
-			if a, ok := x.X.(*ssa.Alloc); ok {
+			if a, ok := x.X.(*ssa.Alloc); ok && r != nil {
 				// named result read back after rundefers: last store in this block
 				var last *ssa.Store
 				for _, i := range r.Block().Instrs {
@@ -316,6 +370,9 @@ func errValClass(r *ssa.Return, v ssa.Value, depth int) string {
 			}
 		}
 		// an error variable returned as is: failing iff the block is behind its non-nil edge
+		if r == nil {
+			return "maybe"
+		}
 		fn := r.Parent()
 		for _, ce := range ir.DominatingConds(fn, r.Block()) {
 			// err == io.EOF / errors.Is(err, X) true => err is non-nil
@@ -600,6 +657,14 @@ func (c *Ctx) ruleArgMapping() {
 				slr := c.Slicer()
 				slr.Control = true
 				sl := slr.Slice(target.Call.Args[w.idx])
+				if vP == nil && calls[0].fr != dv.root {
+					// the definition is taken apart by the caller and handed to a helper
+					// field by field: follow the helper's parameters to the arguments
+					vP = paramByNamed(fn, M+"/efivar.Efivar")
+					sl = dv.sliceDeep(target.Call.Args[w.idx], calls[0].fr)
+				} else if calls[0].fr != dv.root && f != fn && vP != nil && vP.Parent() == fn {
+					sl = dv.sliceDeep(target.Call.Args[w.idx], calls[0].fr)
+				}
 				if vP == nil || !sl[vP] || !ir.HasField(sl, M+"/efivar.Efivar."+w.field) {
 					bad = append(bad, fmt.Sprintf("argument %d does not derive from v.%s", w.idx, w.field))
 				}
@@ -840,6 +905,34 @@ func (d *deepView) sliceBaseObj(v ssa.Value, fr *frame, obj dval) (Affine, bool)
 				return constAffine(0), true
 			}
 			return d.affine(sl.Low, r.fr, nil, 0), true
+		}
+		// a by-value copy of the array (a value receiver or parameter spilled to a
+		// local): the bytes are those the array held when the copy was taken, which
+		// must be after everything in that function that fills the array
+		if a, isA := sl.X.(*ssa.Alloc); isA {
+			var src dval
+			n := 0
+			d.eachStoreTo(a, r.fr, func(st *ssa.Store, f *frame) { src, n = d.resolve(st.Val, f), n+1 })
+			if ld, isLd := src.v.(*ssa.UnOp); n == 1 && isLd && ld.Op == token.MUL && (dval{ld.X, src.fr}).same(obj) {
+				late := true
+				instrsOf(src.fr.fn, func(i ssa.Instruction) {
+					call, isC := i.(ssa.CallInstruction)
+					if !isC {
+						return
+					}
+					for _, arg := range ir.CallArgs(call) {
+						if s2, isS := arg.(*ssa.Slice); isS && s2.X == ld.X && !precedesInCFG(src.fr.fn, i, ld) {
+							late = false
+						}
+					}
+				})
+				if late {
+					if sl.Low == nil {
+						return constAffine(0), true
+					}
+					return d.affine(sl.Low, r.fr, nil, 0), true
+				}
+			}
 		}
 		inner, ok := d.sliceBaseObj(sl.X, r.fr, obj)
 		if !ok {
@@ -1135,8 +1228,29 @@ func retClassesFrom(fn *ssa.Function, start *ssa.BasicBlock, pred int) map[*ssa.
 				return
 			}
 		}
-		for _, s := range b.Succs {
-			if !on[s.Index] {
+		// a branch on err == nil / err != nil whose operand is known along this
+		// path (just assigned a sentinel, or nil) has one feasible successor
+		skip := -1
+		if iff, ok := b.Instrs[len(b.Instrs)-1].(*ssa.If); ok && len(b.Succs) == 2 {
+			if e, nilWhenTrue, isNC := ir.NilCheck(iff.Cond); isNC && isErrorType(e.Type()) {
+				switch valueOn(e, len(path)-1, nil, nil, 0) {
+				case "fail": // not nil: the "is nil" successor is infeasible
+					if nilWhenTrue {
+						skip = 0
+					} else {
+						skip = 1
+					}
+				case "success":
+					if nilWhenTrue {
+						skip = 1
+					} else {
+						skip = 0
+					}
+				}
+			}
+		}
+		for k, s := range b.Succs {
+			if !on[s.Index] && k != skip {
 				dfs(s)
 			}
 		}
@@ -1153,6 +1267,16 @@ func retClassesFrom(fn *ssa.Function, start *ssa.BasicBlock, pred int) map[*ssa.
 	return out
 }
 
+// sameValuePath: two values denote the same storage path or are the same value.
+func sameValuePath(a, b ssa.Value) bool {
+	a, b = ir.StripConv(a), ir.StripConv(b)
+	if a == b {
+		return true
+	}
+	pa, pb := ir.AccessPath(a), ir.AccessPath(b)
+	return pa != "" && pa == pb
+}
+
 // gateBefore (F6): block blk of fn is only reached behind
 // required.Equal(stored) == true, tested in fn itself or established by a
 // library helper whose success fn observes on the way (the helper's accepting
@@ -1167,10 +1291,58 @@ func (c *Ctx) gateBefore(fn *ssa.Function, blk *ssa.BasicBlock, via *ssa.Call, d
 	readers := []string{M + "/efivarfs/fswrapper.FSWrapper.ReadEfivarsWithGuid", M + "/efivarfs/fswrapper.FSWrapper.ReadEfivarsFile"}
 	e := c.accept()
 	for _, ce := range ir.DominatingConds(fn, blk) {
+		// the subset test written out: required &^ stored == 0, or required & stored == required
+		if cmp, ok := ce.Cond.(*ssa.BinOp); ok && (cmp.Op == token.EQL || cmp.Op == token.NEQ) && ce.Truth == (cmp.Op == token.EQL) {
+			var req, sto ssa.Value
+			for _, side := range [][2]ssa.Value{{cmp.X, cmp.Y}, {cmp.Y, cmp.X}} {
+				bit, isB := ir.StripConv(side[0]).(*ssa.BinOp)
+				if !isB {
+					continue
+				}
+				switch {
+				case bit.Op == token.AND_NOT:
+					if k, isK := ir.ConstInt(side[1]); isK && k == 0 {
+						req, sto = bit.X, bit.Y
+					}
+				case bit.Op == token.AND:
+					// (a & b) == a: a is the required mask
+					if sameValuePath(bit.X, side[1]) {
+						req, sto = bit.X, bit.Y
+					} else if sameValuePath(bit.Y, side[1]) {
+						req, sto = bit.Y, bit.X
+					}
+				}
+			}
+			if req != nil {
+				rs, as := c.Slicer().Slice(req), c.Slicer().Slice(sto)
+				reqFromDef := vP != nil && rs[vP] && ir.HasField(rs, M+"/efivar.Efivar.Attributes")
+				stoFromFile := len(ir.CallsIn(as, append(readers, M+"/efivarfs/fswrapper.FSWrapper.ParseEfivars")...)) > 0
+				reqFromFile := len(ir.CallsIn(rs, readers...)) > 0
+				switch {
+				case reqFromDef && stoFromFile && !reqFromFile:
+					return true, ""
+				case reqFromFile:
+					detail = "the subset test is made with the stored mask as the required one: files lacking required attributes are accepted"
+				}
+				continue
+			}
+		}
 		if call, ok := ce.Cond.(*ssa.Call); ok && ir.CallID(call) == M+"/efi/attributes.Attributes.Equal" && ce.Truth {
 			recv, arg := call.Call.Args[0], call.Call.Args[1]
 			rs, as := c.Slicer().Slice(recv), c.Slicer().Slice(arg)
 			recvFromDef := vP != nil && rs[vP] && ir.HasField(rs, M+"/efivar.Efivar.Attributes")
+			if !recvFromDef && vP == nil && via != nil && via.Parent() != nil {
+				// the required mask is a parameter: what the caller passes there
+				cvP := paramByNamed(via.Parent(), M+"/efivar.Efivar")
+				vargs := ir.CallArgs(via)
+				for k, p := range fn.Params {
+					if rs[p] && k < len(vargs) && cvP != nil {
+						if sl := c.Slicer().Slice(vargs[k]); sl[cvP] && ir.HasField(sl, M+"/efivar.Efivar.Attributes") {
+							recvFromDef = true
+						}
+					}
+				}
+			}
 			argFromFile := len(ir.CallsIn(as, append(readers, M+"/efivarfs/fswrapper.FSWrapper.ParseEfivars")...)) > 0
 			recvFromFile := len(ir.CallsIn(rs, readers...)) > 0
 			switch {
@@ -1191,9 +1363,21 @@ func (c *Ctx) gateBefore(fn *ssa.Function, blk *ssa.BasicBlock, via *ssa.Call, d
 		if callee == nil || !c.P.InLib(callee) {
 			continue
 		}
-		// the helper is given this function's variable definition
-		if cp := paramByNamed(callee, M+"/efivar.Efivar"); cp == nil || vP == nil {
+		// the helper is given this function's variable definition — as a whole, or
+		// (no parameter of that type) taken apart into its fields, in which case the
+		// helper's test is judged with the arguments of this call (via)
+		if cp := paramByNamed(callee, M+"/efivar.Efivar"); vP == nil {
 			continue
+		} else if cp == nil {
+			fromDef := false
+			for _, a := range ir.CallArgs(call) {
+				if sl := c.Slicer().Slice(a); sl[vP] && ir.HasField(sl, M+"/efivar.Efivar.Attributes") {
+					fromDef = true
+				}
+			}
+			if !fromDef {
+				continue
+			}
 		} else {
 			passed := false
 			for k, p := range callee.Params {
